@@ -193,6 +193,8 @@ pub struct Case {
     /// (page, fault) in injection order; the faults of one page are consumed by successive requests for that page
     pub faults: Vec<(usize, Fault)>,
     pub consumer: Consumer,
+    /// nodes of the mock cluster (2 or 3; 3 unless stated)
+    pub nodes: usize,
 }
 impl Case {
     pub fn json(&self) -> Value {
@@ -203,6 +205,7 @@ impl Case {
             "ps": self.ps.name(),
             "faults": self.faults.iter().map(|(p, f)| json!([p, f.name()])).collect::<Vec<_>>(),
             "consumer": self.consumer.json(),
+            "nodes": self.nodes,
         })
     }
     pub fn from_json(v: &Value) -> Option<Case> {
@@ -213,6 +216,7 @@ impl Case {
             ps: PsKind::from_name(v["ps"].as_str()?)?,
             faults: v["faults"].as_array()?.iter().filter_map(|x| Some((x[0].as_u64()? as usize, Fault::from_name(x[1].as_str()?)?))).collect(),
             consumer: Consumer::from_json(&v["consumer"])?,
+            nodes: v["nodes"].as_u64().map(|n| n as usize).unwrap_or(NODES).clamp(1, NODES),
         })
     }
     pub fn rows(&self) -> usize {
@@ -306,7 +310,7 @@ pub fn expect(case: &Case) -> Expect {
         // the retry decision state is per page request (each page is one logical request)
         let mut read_timeout_retried = false;
         let mut unavailable_retried = false;
-        let mut targets_left = NODES; // distinct nodes the plan can still offer
+        let mut targets_left = case.nodes; // distinct nodes the (fresh, per page request) plan can still offer
         let mut served = false;
         let mut prev_unprepared = false;
         for f in case.page_faults(p) {
@@ -465,6 +469,7 @@ pub struct World {
     /// early-drop cases whose "at most one further page request" verdict is still open
     pending: Vec<PendingDrop>,
     pub cases_run: usize,
+    pub nodes: usize,
     /// some stream of this world was dropped early (its producer may still have a request in flight)
     pub had_drop: bool,
 }
@@ -547,13 +552,13 @@ pub struct Observed {
 }
 
 impl World {
-    pub async fn setup() -> Result<World, String> {
+    pub async fn setup(nodes: usize) -> Result<World, String> {
         let mut b = MockCluster::builder();
         let toks: [[i64; 2]; NODES] = [[-6_000_000_000_000_000_000, 1_000_000_000_000_000_000], [-3_000_000_000_000_000_000, 4_000_000_000_000_000_000], [0, 7_000_000_000_000_000_000]];
-        for (i, t) in toks.iter().enumerate() {
+        for (i, t) in toks.iter().enumerate().take(nodes) {
             b = b.node(NodeSpec::new("dc1", &format!("r{i}"), t.to_vec()));
         }
-        b = b.keyspace(KeyspaceSpec::simple("ks", NODES).table(TableSpec::new("pg").pk("run", "int").col("idx", "int")));
+        b = b.keyspace(KeyspaceSpec::simple("ks", nodes).table(TableSpec::new("pg").pk("run", "int").col("idx", "int")));
         let cluster = b.build().await?;
         let shared: Arc<Mutex<Shared>> = Arc::new(Mutex::new(Shared::default()));
         let sh = shared.clone();
@@ -564,13 +569,13 @@ impl World {
             None => false,
         });
         let session = SessionBuilder::new().known_node(cluster.contact_point(0)).build().await.map_err(|e| format!("session did not come up: {e}"))?;
-        for n in 0..NODES {
+        for n in 0..nodes {
             cluster
                 .wait_conns(&format!("node {n} has a ready pool connection"), mockcluster::DEADLINE, |cs| cs.iter().any(|c| c.node == n && c.open && c.ready && c.registered.is_empty()).then_some(()))
                 .await?;
         }
         let prepared = session.prepare(STMT_PREPARED).await.map_err(|e| format!("prepare failed: {e}"))?;
-        Ok(World { cluster, session: Arc::new(session), shared, prepared, next_run: 1, pending: Vec::new(), cases_run: 0, had_drop: false })
+        Ok(World { cluster, session: Arc::new(session), shared, prepared, next_run: 1, pending: Vec::new(), cases_run: 0, nodes, had_drop: false })
     }
 
     pub async fn teardown(self) {
@@ -1116,12 +1121,12 @@ pub async fn run_batch(cases: Arc<Vec<Case>>, jobs: usize, stop_after: usize) ->
                 }
                 // a connection reset must not hit a connection that still carries the in-flight request of an earlier,
                 // dropped stream of the same world (that producer would see a broken connection and retry)
-                if cases[i].has_reset() && world.as_ref().map(|w| w.had_drop).unwrap_or(false) {
+                if world.as_ref().map(|w| (cases[i].has_reset() && w.had_drop) || w.nodes != cases[i].nodes).unwrap_or(false) {
                     let w = world.take().unwrap();
                     finish_world(w, &out).await;
                 }
                 if world.is_none() {
-                    match World::setup().await {
+                    match World::setup(cases[i].nodes).await {
                         Ok(w) => {
                             out.lock().unwrap().worlds += 1;
                             world = Some(w);
@@ -1196,6 +1201,7 @@ pub fn dimension_counts(cases: &[Case]) -> BTreeMap<String, u64> {
         bump(format!("cases_consumer_{}", c.consumer.kind()));
         bump(format!("cases_rows_{}", c.rows()));
         bump(format!("cases_faults_{}", c.faults.len()));
+        bump(format!("cases_nodes_{}", c.nodes));
         for (_, f) in &c.faults {
             bump(format!("faults_{}", f.name()));
         }
